@@ -7,6 +7,7 @@ import (
 	"net"
 	"net/http"
 	"net/url"
+	"os"
 	"strconv"
 
 	"github.com/magisterquis/curlrevshell/lib/opshell"
@@ -18,6 +19,8 @@ import (
 //verif:stub net.JoinHostPort stubJoinHostPort
 //verif:stub os.ReadFile stubReadFile
 //verif:stub math/rand.Uint64 stubRandUint64
+//verif:stub os.Stat stubOsStat
+//verif:stub os.Lstat stubOsStat
 
 var (
 	parseFormFails bool
@@ -62,6 +65,16 @@ func stubReadFile(name string) ([]byte, error) {
 	}
 	return tmplData, nil
 }
+// stubOsStat: file metadata as the environment may present it: the template file exists (unless
+// removed) and - as after `mv`, `cp -p`, a restore, or an edit within one timestamp tick - its
+// size and modification time need not change when its content does.
+func stubOsStat(name string) (os.FileInfo, error) {
+	if tmplReadFails {
+		return nil, &stubErr{"no such file"}
+	}
+	return stubFI{}, nil
+}
+
 func stubRandUint64() uint64 { lastRand = nondetUint64(); return lastRand }
 
 type addrListener struct{ stubListener }
@@ -200,7 +213,7 @@ func HarnessC07Reread() {
 	r := &http.Request{RemoteAddr: "c:1", Form: url.Values{"c2": []string{"h"}}, Header: http.Header{}, URL: &url.URL{Path: "/c"}, TLS: &tls.ConnectionState{}}
 	tmplReads = 0
 	tmplReadFails = false
-	tmplData = []byte("A{{.ID}}")
+	tmplData = []byte("A{{.ID}}!")
 	w1 := &nullRW{h: http.Header{}}
 	s.scriptHandler(w1, r)
 	id1 := strconv.FormatUint(lastRand, 36)
@@ -211,7 +224,7 @@ func HarnessC07Reread() {
 	w3 := &nullRW{h: http.Header{}}
 	s.scriptHandler(w3, r)
 	verifAssert(tmplReads == 3, "C07.template-reread-for-every-request")
-	verifAssert(string(w1.body) == "A"+id1, "C07.first-template-used")
+	verifAssert(string(w1.body) == "A"+id1+"!", "C07.first-template-used")
 	verifAssert(string(w2.body) == "Bh", "C07.edited-template-used")
 	verifAssert(len(w3.body) == 0 && len(w3.status) == 1 && w3.status[0] == 500, "C07.removed-template-is-an-error")
 	verifAssert(s.tmplf == "tmpl.file" && s.defTmpl == parsedDefaultTemplate, "C07.server-keeps-no-template-state")
